@@ -488,7 +488,9 @@ func hostileObfs4(c *mon.Case, r *mon.Run, dir string, victimRole string, attack
 	switch attack {
 	case "payload-length-beyond-packet":
 		pkt := ref.Packet(ref.PacketPayload, st.Bytes(int64(pre), 40), 5)
-		binary.BigEndian.PutUint16(pkt[1:], uint16(41+rng.IntN(1400)))
+		// (40 payload + 5 padding bytes follow the header: any length above 45 lies beyond the packet;
+		// 41..45 would merely turn padding into payload, which is a well-formed packet)
+		binary.BigEndian.PutUint16(pkt[1:], uint16(46+rng.IntN(1395)))
 		raw(pkt)
 	case "payload-length-65535":
 		pkt := ref.Packet(ref.PacketPayload, st.Bytes(int64(pre), 40), 5)
